@@ -206,3 +206,91 @@ def _plan_queries(m, ob):
 
 BUILDERS['WorkflowPlan.get_task_predecessors'] = _plan_queries
 BUILDERS['WorkflowPlan.get_task_successors'] = _plan_queries
+
+
+# ---------------------------------------------------------------------------------------------------- buffer tier moves (C18)
+def _mk_buffer(m, size):
+    import simpy
+    from topsim.core.buffer import Buffer, HotBuffer, ColdBuffer
+    from topsim.core.instrument import Observation, RunStatus
+    env = simple_env(0)
+    hcap = m.num('self.hot.0.total_capacity', 100) or 100
+    ccap = m.num('self.cold.0.total_capacity', 100) or 100
+    hrate = m.num('self.hot.0.max_ingest_data_rate', 3) or 3
+    crate = m.num('self.cold.0.max_data_rate', 5) or 5
+    b = object.__new__(Buffer)
+    b.env = env
+    b.hot = {0: HotBuffer(hcap, hrate)}
+    b.cold = {0: ColdBuffer(ccap, crate)}
+    b._data_left_to_transfer = 0
+    b.waiting_observation_list = []
+    b.events = []
+    b.threshold = 0.6
+    b.stored_times = []
+    o = Observation('obs', 0, 1, 1, 'wf', 1)
+    o.total_data_size = size
+    return env, b, o
+
+
+def _tier_state(b):
+    return dict(hot_free=b.hot[0].current_capacity, cold_free=b.cold[0].current_capacity,
+                hot_stored=[x.name for x in b.hot[0].observations['stored']], cold_stored=[x.name for x in b.cold[0].observations['stored']],
+                hot_slot=getattr(b.hot[0].observations['transfer'], 'name', None), cold_slot=getattr(b.cold[0].observations['transfer'], 'name', None),
+                counter=b._data_left_to_transfer)
+
+
+def _move_replay(direction):
+    def run(m, ob):
+        sizes = [0] if 'zero-size' in ob else [m.num('loc_data_left_to_transfer', 7) or 7, 7, 10]
+        for size in sizes:
+            env, b, o = _mk_buffer(m, size)
+            src, dst = (b.hot[0], b.cold[0]) if direction == 'h2c' else (b.cold[0], b.hot[0])
+            src.current_capacity -= size
+            src.observations['stored'].append(o)
+            if 'refused' in ob:
+                dst.current_capacity = max(size - 1, 0) if size > 0 else 0
+            before = _tier_state(b)
+            gen = b.move_hot_to_cold(0) if direction == 'h2c' else b.move_cold_to_hot(0)
+            trace = [before]
+            bad = []
+            rate = min(b.hot[0].max_ingest_data_rate, b.cold[0].max_data_rate)
+            left = size
+            result = None
+            try:
+                while True:
+                    next(gen)
+                    st = _tier_state(b)
+                    prev = trace[-1]
+                    d = min(rate, left)
+                    if (st['hot_free'] + st['cold_free']) != (prev['hot_free'] + prev['cold_free']):
+                        bad.append(f"step {len(trace)}: hot+cold free space changed from {prev['hot_free'] + prev['cold_free']} to {st['hot_free'] + st['cold_free']}")
+                    moved = abs(st['hot_free'] - prev['hot_free'])
+                    if moved != d:
+                        bad.append(f"step {len(trace)}: moved {moved}, the slower of the two rates allows min({rate}, {left}) = {d}")
+                    left -= d
+                    trace.append(st)
+                    if len(trace) > 200:
+                        bad.append('move does not complete')
+                        break
+            except StopIteration as e:
+                result = e.value
+            except RuntimeError as e:
+                bad.append(f"RuntimeError during the move: {e}")
+            after = _tier_state(b)
+            where = after['hot_stored'].count('obs') + after['cold_stored'].count('obs')
+            if result is False or size <= 0:
+                if result is False and after != before:
+                    bad.append(f"refused move changed the state: before {before} after {after}")
+                if size <= 0 and where != 1:
+                    bad.append(f"zero-size observation is stored in {where} tiers after the move (slots: hot={after['hot_slot']}, cold={after['cold_slot']})")
+            elif result is True and (where != 1 or after['hot_slot'] or after['cold_slot']):
+                bad.append(f"after the move the observation is stored in {where} tier lists, slots hot={after['hot_slot']} cold={after['cold_slot']}")
+            if bad:
+                return dict(violated=True, direction=direction, size=size, hot_rate=b.hot[0].max_ingest_data_rate,
+                            cold_rate=b.cold[0].max_data_rate, observed=bad[:4], before=before, after=after)
+        return dict(violated=False, note='not reproduced with the model values')
+    return run
+
+
+BUILDERS['Buffer.move_hot_to_cold'] = _move_replay('h2c')
+BUILDERS['Buffer.move_cold_to_hot'] = _move_replay('c2h')
